@@ -102,6 +102,8 @@ class PolygonPixelRegion(PixelRegion):
         shape = x.shape
         mask = points_in_polygon(x.flatten(), y.flatten(), vx, vy).astype(bool)
         in_poly = mask.reshape(shape)
+        if pixcoord.isscalar:
+            in_poly = in_poly[0]
         if self.meta.get('include', True):
             return in_poly
         else:
